@@ -167,6 +167,9 @@ def run(ck):
     ck.run_rule("G3", "optional parser results are None-tested before use", 10, escape.rule_G3)
     ck.run_rule("G10", "dispatch exhaustiveness", 4, escape.rule_G10)
     ck.run_rule("G11", "possibly-deferred values are only used the way deferreds can be used", 5, escape.rule_G11)
+    ck.run_rule("G12", "evaluation depth does not grow with the length of a definition chain (RecursionError is an internal crash)", 6, escape.rule_G12)
+    from ..rules import loops
+    ck.run_rule("G13", "every while loop has a variant (template with side conditions read from the loop)", 15, loops.rule_G13)
     ck.run_rule("P1", "divisions by program values are guarded", 3, partial.rule_P1)
     ck.run_rule("P2", "every .encode(charset) on program text is guarded by a reporting handler", 3, c14.rule_P2)
     ck.run_rule("P5", "int(text, base) conversions in number() are guarded", 4, partial.rule_P5)
